@@ -509,7 +509,7 @@ Proof.
     exists []. rewrite app_nil_r. split; [reflexivity|]. split; [exact Hwf|]. split; [exact Hdeg|]. split.
     + intros vo vo' Hc Hs. cbn [subst_order] in Hs. inversion Hs. subst. exact Hc.
     + intros pl1 Hf. exists pl1. split; [reflexivity | exact Hf].
-  - cbn [apply_sc] in H. cbn [map] in Hwf, Hids.
+  - cbn [apply_sc] in H. cbn [map] in Hwf, Hids. cbn [map].
     assert (Hassoc : forall l : list pconstr, done ++ subst_c f c0 :: l = (done ++ [subst_c f c0]) ++ l)
       by (intros l; rewrite <- app_assoc; reflexivity).
     assert (Hskip : degenerate (subst_c f c0) ->
@@ -538,8 +538,10 @@ Proof.
         assert (Hincur : In (PCSameChip vs) cur) by (unfold cur; apply in_app_iff; right; left; reflexivity).
         assert (Hcur' : map (subst_c g) (done ++ [PCSameChip vs]) ++ map (subst_c (fun v => g (f v))) rest
                         = map (subst_c g) cur).
-        { unfold cur. rewrite Hassoc, map_app. f_equal. rewrite map_map. apply map_ext. intros k. apply subst_c_comp. }
-        pose proof (step_pwf m vr cur vs mv total vr' Hwf Hincur Hvsne Epop Hids) as Hwf2.
+        { unfold cur. rewrite (Hassoc (map (subst_c f) rest)), (map_app (subst_c g) (done ++ [PCSameChip vs])).
+          f_equal. rewrite map_map. apply map_ext. intros k. apply subst_c_comp. }
+        assert (Hwf2 : pwf m (vr' ++ [(mv, total)]) (map (subst_c g) cur))
+          by (exact (step_pwf m vr cur vs mv total vr' Hwf Hincur Hvsne Epop Hids)).
         assert (Hids2 : ids_above (- Z.of_nat (S (length (subs ++ [(mv, vs)])))) (vr' ++ [(mv, total)]) (map (subst_c g) cur)).
         { rewrite app_length. cbn [length]. destruct Hids as [I1 I2].
           destruct (pop_all_spec (dedup vs) vr [] total vr' Epop (dedup_NoDup vs) (pwf_nodup _ _ _ Hwf) (pwf_dnodup _ _ _ Hwf))
